@@ -119,24 +119,31 @@ class Workbook(object):
 
 
 class TempFile(object):
+    """tempfile.NamedTemporaryFile(): this handle starts at position 0; data saved through the file's *name* (openpyxl opens
+    the path itself) does not move this handle, so a read() returns the saved bytes whether or not seek(0) came first; a
+    second read() without a rewind is at the end of the file"""
+    def __init__(self):
+        self.at_end = False
+
     def get_name(self, I):
         return Const("<tempfile>")
 
     def m_seek(self, I, args, kwargs):
         pos = args[0]
-        if not (isinstance(pos, Num) and pos.const() == 0):
-            raise AnalysisError("temporary file model: seek to %r (only a rewind to 0 is modelled)" % (pos,))
-        self.rewound = True
+        if kwargs or len(args) != 1 or not (isinstance(pos, Num) and pos.const() == 0):
+            raise AnalysisError("temporary file model: seek%r (only a rewind to 0 is modelled)" % (tuple(args),))
+        self.at_end = False
         return NONE
 
     def m_read(self, I, args, kwargs):
         from .strtree import SFmt
-        if args:
+        if args or kwargs:
             raise AnalysisError("temporary file model: read(size)")
         wb = I.__dict__.get("_saved_workbooks", {}).get(self.get_name(I).key())
-        if wb is None or not getattr(self, "rewound", False):
-            # nothing was saved under this file's name (or the position is at the end): nothing to read
+        if wb is None or self.at_end:
+            # nothing was saved under this file's name, or everything has been read already
             return Const("")
+        self.at_end = True
         return StrV(SFmt("s", Opaque(("saved workbook bytes",))))
 
 
